@@ -51,8 +51,9 @@ VARIABLES cm,        \* the manager's configuration map
           inflight,  \* set of undelivered [name, inc, conf, seq]
           nseq, ninc, nreload,
           closedIncs,\* history: incarnations that were closed (their clients were disconnected)
+          busy,      \* names whose live path is kept busy by a publisher (Request .. Release / closed by a reload)
           hist       \* history: the actions taken (replay script); hidden by the VIEW
-vars == <<cm, live, inflight, nseq, ninc, nreload, closedIncs, hist>>
+vars == <<cm, live, inflight, nseq, ninc, nreload, closedIncs, busy, hist>>
 
 CanUpdate(old, new) == old.cold = new.cold      \* pathConfCanBeUpdated: only hot fields (and name/regexp) differ
 
@@ -103,6 +104,7 @@ Reload(newcm) ==
         /\ nseq' = e.nseq
         /\ ninc' = e.ninc
         /\ closedIncs' = closedIncs \cup e.closed
+        /\ busy' = {n \in busy : e.live[n].alive /\ e.live[n].inc = live[n].inc}   \* closing a path closes its publisher
     /\ nreload' = nreload + 1
     /\ hist' = Append(hist, [a |-> "Reload", cm |-> newcm, name |-> "", rl |-> nreload + 1])
 
@@ -113,19 +115,34 @@ Deliver(d) ==
     /\ live' = IF live[d.name].alive /\ live[d.name].inc = d.inc
                THEN [live EXCEPT ![d.name].conf = d.conf] ELSE live
     /\ hist' = Append(hist, [a |-> "Deliver", cm |-> cm, name |-> d.name, rl |-> d.rl])
-    /\ UNCHANGED <<cm, nseq, ninc, nreload, closedIncs>>
+    /\ UNCHANGED <<cm, nseq, ninc, nreload, closedIncs, busy>>
 
-\* a client publishes to a name: the manager creates the path if it resolves (createPath)
+\* a client publishes to a name: the manager creates the path if it resolves (createPath).
+\* The static configuration's own name can be requested too while that configuration is absent: the
+\* name then lives under a regular-expression configuration (and may later be re-homed to the static one).
 Request(n) ==
     /\ ~live[n].alive
-    /\ n # StaticKey
+    /\ (n = StaticKey => ~IsPresent(cm[StaticKey]))
     /\ ninc < MaxInc
     /\ LET k == ResolveKey(cm, n) IN
         /\ k # "none"
         /\ live' = [live EXCEPT ![n] = [alive |-> TRUE, inc |-> ninc + 1, key |-> k, conf |-> cm[k], groups |-> GroupsOf(k, n)]]
     /\ ninc' = ninc + 1
+    /\ busy' = busy \cup {n}
     /\ hist' = Append(hist, [a |-> "Request", cm |-> cm, name |-> n, rl |-> 0])
     /\ UNCHANGED <<cm, inflight, nseq, nreload, closedIncs>>
+
+\* the publisher leaves (only explored when no delivery for the path is in flight: what the path itself
+\* runs with is then what the manager recorded). path.shouldClose: a path that runs with a
+\* regular-expression configuration and has nobody left closes itself; a path of a static
+\* configuration stays - whatever configuration it was created under.
+Release(n) ==
+    /\ n \in busy /\ live[n].alive
+    /\ \A d \in inflight : d.name # n
+    /\ busy' = busy \ {n}
+    /\ live' = IF live[n].key # StaticKey THEN [live EXCEPT ![n] = Dead] ELSE live
+    /\ hist' = Append(hist, [a |-> "Release", cm |-> cm, name |-> n, rl |-> 0])
+    /\ UNCHANGED <<cm, inflight, nseq, ninc, nreload, closedIncs>>
 
 InitCM == [k \in Keys |-> IF k \in InitKeys THEN [hot |-> H0, cold |-> C0] ELSE Absent]
 
@@ -133,14 +150,14 @@ Init == /\ cm \in {InitCM}
         /\ live = [n \in Names |-> IF n = StaticKey /\ IsPresent(cm[StaticKey])
                                    THEN [alive |-> TRUE, inc |-> 1, key |-> StaticKey, conf |-> cm[StaticKey], groups |-> <<>>]
                                    ELSE Dead]
-        /\ inflight = {} /\ nseq = 0 /\ ninc = 1 /\ nreload = 0 /\ closedIncs = {} /\ hist = <<>>
+        /\ inflight = {} /\ nseq = 0 /\ ninc = 1 /\ nreload = 0 /\ closedIncs = {} /\ busy = {} /\ hist = <<>>
 
 Next == \/ \E c \in ConfMaps : Reload(c)
         \/ \E d \in inflight : Deliver(d)
-        \/ \E n \in Names : Request(n)
+        \/ \E n \in Names : Request(n) \/ Release(n)
 Spec == Init /\ [][Next]_vars
 
-View == <<cm, live, inflight, nseq, ninc, nreload, closedIncs>>
+View == <<cm, live, inflight, nseq, ninc, nreload, closedIncs, busy>>
 EmitRun == (Len(hist) = SimDepth \/ (hist # <<>> /\ ~ENABLED Next)) => Emit("RUN", [h |-> hist])
 
 \* =================================================================== layer 2: the statement
